@@ -753,6 +753,11 @@ def check(ix, rep):
     else:
         rep.fail('R-STATE', rs[0].module.rel if rs else on.cls.module.rel, rs[0].qual if rs else 'reset', 'counter-reset', 'reset() does not restart the counter')
     rep.floor('rule instances', len(rep.instances), 12)
+    # the settings the counter is judged by are this monitor's own: a descriptor stores on the instance, nothing in the interpreter modules is shared
+    from sa.rules import round11 as _r11d, globals as _G13
+    _r11d.check_descriptors(ix, rep)
+    _G13.fixture_selfcheck(rep)
+    rep.floor('interpreter modules scanned for shared state', _G13.run_global(ix, rep, prefix='rtamt.semantics.discrete_time_interpreter') + _G13.run_global(ix, rep, prefix='rtamt.semantics.abstract_discrete_time'), 2)
     explanation = (
         'The counting algorithm is decided structurally. Comparison: the test of update_sampling_violation_counter is parsed as '
         '`gap < LOW or gap > HIGH`; LOW and HIGH are evaluated to exact rational functions over the symbols period, tol, U[period unit], '
